@@ -130,6 +130,7 @@ class Helper:
         self.body = _strip_doc(node.body)  # type: ignore[attr-defined]
         self.tail_only = False  # only `return helper(...)` sites can take the body
         self.same_class_only = False  # call sites outside the defining class are left alone
+        self.same_module_only = False  # a module-level function whose name other modules use for their own
 
     def gen_ok(self) -> bool:
         """A generator whose every `yield` is a statement and that never returns early."""
@@ -259,6 +260,19 @@ class Inliner:
                 continue
             h = Helper(key, cls, node, container)
             ambiguous = counts.get(name, 0) != 1
+            if ambiguous and h.local and sum(1 for x in container if isinstance(x, FuncNode) and x.name == name) == 1:
+                ambiguous = False  # a nested function is called by its bare name in the function that defines it
+            if ambiguous and not h.is_method and not h.local and cls is None:
+                # module-level functions of the same name in *other* modules: a bare call inside this module means
+                # this one (call sites in other modules are left alone: `tree is home` below)
+                here = next((t for t in self.trees.values() if any(x is node for x in t.body)), None)
+                if here is not None and sum(1 for x in here.body if isinstance(x, FuncNode) and x.name == name) == 1 and not any(
+                        isinstance(x, (ast.Import, ast.ImportFrom)) and any((a.asname or a.name) == name for a in x.names) for x in ast.walk(here)):
+                    others_nested = any(isinstance(x, FuncNode) and x.name == name and x is not node and not any(x is y for y in here.body)
+                                        for x in ast.walk(here))
+                    if not others_nested:
+                        ambiguous = False
+                        h.same_module_only = True
             if ambiguous and h.is_method and cls is not None and self._unrelated_namesakes(cls, name):
                 # the same name is used by methods of unrelated classes only: `self.name(...)` inside this
                 # class can mean this method alone
@@ -316,8 +330,11 @@ class Inliner:
             for n in ast.walk(tree):
                 if isinstance(n, ast.Attribute) and n.attr == h.name and id(n) not in callees:
                     return True
-                if isinstance(n, ast.Name) and n.id == h.name and id(n) not in callees and isinstance(n.ctx, ast.Load):
-                    return True
+                if isinstance(n, ast.Name) and n.id == h.name and id(n) not in callees and isinstance(n.ctx, ast.Load) and not h.is_method:
+                    # (a method is reached through an attribute; a bare name of the same spelling is a local)
+                    stored_locally = any(isinstance(x, ast.Name) and x.id == h.name and isinstance(x.ctx, ast.Store) for x in ast.walk(tree))
+                    if not stored_locally:
+                        return True
                 if isinstance(n, ast.alias) and n.name == h.name:
                     # imported by name: calls through the import are still found by name
                     continue
@@ -489,7 +506,7 @@ class Inliner:
         if isinstance(n.func, ast.Name):
             return n.func.id == h.name and not h.is_method
         if isinstance(n.func, ast.Attribute):
-            if n.func.attr != h.name:
+            if n.func.attr != h.name or h.local or h.same_module_only:
                 return False
             if h.receiver == "self":
                 return isinstance(n.func.value, ast.Name) and n.func.value.id == "self"
